@@ -271,10 +271,13 @@ int rtosc_arg_vals_cmp_single(const rtosc_arg_val_t* _lhs,
         case 'a':
         {
             int32_t llen = rtosc_av_arr_len(_lhs), rlen = rtosc_av_arr_len(_rhs);
-            if(     rtosc_av_arr_type(_lhs) != rtosc_av_arr_type(_rhs)
-               && !(rtosc_av_arr_type(_lhs) == 'T' && rtosc_av_arr_type(_rhs))
-               && !(rtosc_av_arr_type(_lhs) == 'F' && rtosc_av_arr_type(_rhs)))
-                rval = (rtosc_av_arr_type(_lhs) > rtosc_av_arr_type(_rhs)) ? 1 : -1;
+            // arrays of booleans have one element type, whether marked 'T'
+            // or 'F' (as in rtosc_arg_vals_eq_single)
+            char ltype = rtosc_av_arr_type(_lhs), rtype = rtosc_av_arr_type(_rhs);
+            if(ltype == 'F') ltype = 'T';
+            if(rtype == 'F') rtype = 'T';
+            if(ltype != rtype)
+                rval = (ltype > rtype) ? 1 : -1;
             else
             {
                 // the arg vals differ in this array => compare and return
